@@ -1,21 +1,33 @@
 //! C07 replay: rename of every declaration of a GleamGen program to a fresh name.
 //! The specification supplies, per declaration, the set of tokens a rename must rewrite (`ren`).
+//! Workspace: m1 = the program (package `app`), the library modules m2 and sub/m2 in a second local package `lib` that
+//! `app` depends on (one workspace in four: a single package).  A library declaration is renamed from an occurrence in m1
+//! and from its declaration; the edits in its module are the declaration and its uses there, the other library module
+//! must stay untouched.
 use ide::{Analysis, FileId, FilePos, GotoDefinitionResult};
 use serde_json::{json, Value};
 use std::io::Write;
 use std::sync::{Arc, Mutex};
 use syntax::lexer::GleamLexer;
-use verif_harness::programs::{self, Program, LIB_NAME, LIB_TEXT};
+use verif_harness::programs::{self, Program, LIBS};
 use verif_harness::util::{catch, quiet_panics, Rng};
-use verif_harness::workspace;
+use verif_harness::workspace::{self, Shape};
 
 const M1: FileId = FileId(0);
-const M2: FileId = FileId(1);
+const NLIB: usize = LIBS.len();
 
-/// (decl id, token index in the lexed library text)
-fn lib_decl_tokens() -> Vec<(u64, usize)> {
-    let toks: Vec<(usize, usize)> = GleamLexer::new(LIB_TEXT).map(|t| (usize::from(t.range.start()), usize::from(t.range.end()))).collect();
-    programs::lib_decls().iter().map(|(id, off, _)| (*id, toks.iter().position(|(s, _)| s == off).unwrap())).collect()
+fn lib_file(lib: usize) -> FileId {
+    FileId(1 + lib as u32)
+}
+
+fn gen_ws(shape: Shape, m1: &str, libs: &[String]) -> workspace::Ws {
+    workspace::gen_workspace(shape, &[("m1", m1), (LIBS[0].0, &libs[0]), (LIBS[1].0, &libs[1])])
+}
+
+/// (decl id, token index in the lexed text of library module `lib`)
+fn lib_decl_tokens(lib: usize) -> Vec<(u64, usize)> {
+    let toks: Vec<(usize, usize)> = GleamLexer::new(LIBS[lib].1).map(|t| (usize::from(t.range.start()), usize::from(t.range.end()))).collect();
+    programs::lib_decls_of(lib).iter().map(|(id, off, _)| (*id, toks.iter().position(|(s, _)| s == off).unwrap())).collect()
 }
 
 fn lib_decl_range(text: &str, tok_index: usize) -> (usize, usize) {
@@ -24,7 +36,7 @@ fn lib_decl_range(text: &str, tok_index: usize) -> (usize, usize) {
 }
 
 /// goto key of every identifier token of m1: "t<idx>" / "l<declid>" / "none" / "o.."
-fn binding_map(a: &Analysis, toks: &[(usize, usize, usize)], lib_text: &str, decl_toks: &[(u64, usize)]) -> Vec<String> {
+fn binding_map(a: &Analysis, toks: &[(usize, usize, usize)], lib_texts: &[String], decl_toks: &[Vec<(u64, usize)>]) -> Vec<String> {
     toks.iter().map(|(_, s, _)| {
         match a.goto_definition(FilePos::new(M1, (*s as u32).into())).unwrap() {
             Some(GotoDefinitionResult::Targets(ts)) if !ts.is_empty() => {
@@ -32,12 +44,14 @@ fn binding_map(a: &Analysis, toks: &[(usize, usize, usize)], lib_text: &str, dec
                 let (fs, fe) = (usize::from(n.focus_range.start()), usize::from(n.focus_range.end()));
                 if n.file_id == M1 {
                     toks.iter().find(|(_, ts, te)| *ts >= fs && *te <= fe).map(|(i, _, _)| format!("t{i}")).unwrap_or_else(|| format!("o{fs}"))
-                } else if n.file_id == M2 {
-                    decl_toks.iter().find(|(_, ti)| { let (s, e) = lib_decl_range(lib_text, *ti); s >= fs && e <= fe }).map(|(id, _)| format!("l{id}"))
-                        .unwrap_or_else(|| if fs == 0 { "l2000".into() } else {
+                } else if (n.file_id.0 as usize) <= NLIB {
+                    let lib = n.file_id.0 as usize - 1;
+                    let lib_text = &lib_texts[lib];
+                    decl_toks[lib].iter().find(|(_, ti)| { let (s, e) = lib_decl_range(lib_text, *ti); s >= fs && e <= fe }).map(|(id, _)| format!("l{id}"))
+                        .unwrap_or_else(|| if fs == 0 { format!("l{}", LIBS[lib].2) } else {
                             // some other token of the library: identify it by its index, which a rename does not change
                             let k = GleamLexer::new(lib_text).position(|t| usize::from(t.range.start()) >= fs).unwrap_or(usize::MAX);
-                            format!("om2:tok{k}")
+                            format!("o{}:tok{k}", LIBS[lib].0)
                         })
                 } else {
                     "ofile".into()
@@ -67,12 +81,13 @@ fn apply(text: &str, edits: &[(usize, usize, String)]) -> String {
 
 const IDENT_ROLES: &[&str] = &["ref", "def", "spreaddef", "altdef", "modref", "pmodref", "qref", "impname", "impalias", "modpath", "moddef", "pref", "label", "plabel", "field", "tref", "fieldalt", "qtref", "tmodref"];
 
-fn check_program(case: &Value, prog: &Program, rng: &mut Rng, res: &mut Vec<Value>, stats: &mut (u64, u64, u64, Vec<String>)) {
-    let decl_toks = lib_decl_tokens();
-    let ws = workspace::single_package(&[("m1", &prog.text), (LIB_NAME, LIB_TEXT)]);
+fn check_program(case: &Value, prog: &Program, shape: Shape, rng: &mut Rng, res: &mut Vec<Value>, stats: &mut (u64, u64, u64, Vec<String>)) {
+    let decl_toks: Vec<Vec<(u64, usize)>> = (0..NLIB).map(lib_decl_tokens).collect();
+    let lib_texts: Vec<String> = LIBS.iter().map(|l| l.1.to_string()).collect();
+    let ws = gen_ws(shape, &prog.text, &lib_texts);
     let a = ws.host.snapshot();
     let id_toks: Vec<(usize, usize, usize)> = prog.toks.iter().filter(|t| IDENT_ROLES.contains(&t.r.as_str())).map(|t| (t.idx, t.start, t.end)).collect();
-    let before = binding_map(&a, &id_toks, LIB_TEXT, &decl_toks);
+    let before = binding_map(&a, &id_toks, &lib_texts, &decl_toks);
     let nerr_before = a.diagnostics(M1).unwrap().len();
     for r in case["ren"].as_array().unwrap() {
         let d = r["d"].as_u64().unwrap();
@@ -91,19 +106,33 @@ fn check_program(case: &Value, prog: &Program, rng: &mut Rng, res: &mut Vec<Valu
         let feat = |what: &str| json!({"what": what, "site": qt.r, "decl": if d >= 2000 { "lib" } else if d >= 1000 { "item" } else { "local" },
             "decl_role": prog.toks.iter().find(|t| t.idx as u64 == d).map(|t| t.r.clone()).unwrap_or_default(), "ctx": qt.ctx.join("/")});
         let detail = |extra: Value| json!({"case": case, "text": prog.text, "decl": d, "old": old, "query_token": {"idx": qt.idx, "offset": qt.start}, "info": extra});
-        // a library declaration is renamed twice: from the seeded occurrence in m1 and from its declaration in m2
+        // a library declaration is renamed twice: from the seeded occurrence in m1 and from its declaration in its module
+        let dlib = if d >= 2000 { Some(programs::lib_of(d)) } else { None };
         let mut sites: Vec<(FileId, usize)> = vec![(M1, qt.start)];
-        if d >= 2000 {
-            let ti = decl_toks.iter().find(|(id, _)| *id == d).unwrap().1;
-            sites.push((M2, lib_decl_range(LIB_TEXT, ti).0));
+        if let Some(l) = dlib {
+            let ti = decl_toks[l].iter().find(|(id, _)| *id == d).unwrap().1;
+            sites.push((lib_file(l), lib_decl_range(LIBS[l].1, ti).0));
+        }
+        // the edits expected in the library modules: the declaration and its uses in the declaring module, nothing elsewhere
+        let mut exp_libs: Vec<Vec<(usize, usize, String)>> = vec![vec![]; NLIB];
+        if let Some(l) = dlib {
+            let ti = decl_toks[l].iter().find(|(id, _)| *id == d).unwrap().1;
+            let (s, e) = lib_decl_range(LIBS[l].1, ti);
+            exp_libs[l].push((s, e, fresh.to_string()));
+            for (id, off) in programs::lib_uses_of(l) {
+                if id == d {
+                    exp_libs[l].push((off, off + old.len(), fresh.to_string()));
+                }
+            }
+            exp_libs[l].sort();
         }
         for (qfile, qoff) in sites {
-        let feat = |what: &str| { let mut f = feat(what); if qfile == M2 { f["site"] = json!("libdecl"); } f };
+        let feat = |what: &str| { let mut f = feat(what); if qfile != M1 { f["site"] = json!("libdecl"); } f };
         let edit = match a.rename(FilePos::new(qfile, (qoff as u32).into()), fresh).unwrap() {
             Ok(e) => e,
             Err(msg) => {
                 stats.1 += 1;
-                let m = format!("{msg} [site {} of a {} declaration]", if qfile == M2 { "libdecl" } else { qt.r.as_str() }, if d >= 2000 { "lib" } else if d >= 1000 { "item" } else { "local" });
+                let m = format!("{msg} [site {} of a {} declaration]", if qfile != M1 { "libdecl" } else { qt.r.as_str() }, if d >= 2000 { "lib" } else if d >= 1000 { "item" } else { "local" });
                 if !stats.3.contains(&m) {
                     stats.3.push(m);
                 }
@@ -112,16 +141,18 @@ fn check_program(case: &Value, prog: &Program, rng: &mut Rng, res: &mut Vec<Valu
         };
         // ---- the edit set
         let mut m1_edits: Vec<(usize, usize, String)> = vec![];
-        let mut m2_edits: Vec<(usize, usize, String)> = vec![];
+        let mut lib_edits: Vec<Vec<(usize, usize, String)>> = vec![vec![]; NLIB];
         let mut other_files = false;
         for (f, es) in edit.content_edits.iter() {
             for e in es {
                 let rec = (usize::from(e.delete.start()), usize::from(e.delete.end()), e.insert.to_string());
-                if *f == M1 { m1_edits.push(rec) } else if *f == M2 { m2_edits.push(rec) } else { other_files = true }
+                if *f == M1 { m1_edits.push(rec) } else if (f.0 as usize) <= NLIB { lib_edits[f.0 as usize - 1].push(rec) } else { other_files = true }
             }
         }
         m1_edits.sort();
-        m2_edits.sort();
+        for l in lib_edits.iter_mut() {
+            l.sort();
+        }
         let mut got_toks: Vec<usize> = vec![];
         let mut bad_edit: Option<Value> = None;
         for (s, e, ins) in &m1_edits {
@@ -133,29 +164,25 @@ fn check_program(case: &Value, prog: &Program, rng: &mut Rng, res: &mut Vec<Valu
         }
         let dup = got_toks.windows(2).any(|w| w[0] == w[1]);
         got_toks.dedup();
-        let exp_m2: Vec<(usize, usize, String)> = if d >= 2000 {
-            let ti = decl_toks.iter().find(|(id, _)| *id == d).unwrap().1;
-            let (s, e) = lib_decl_range(LIB_TEXT, ti);
-            vec![(s, e, fresh.to_string())]
-        } else {
-            vec![]
-        };
-        if other_files || bad_edit.is_some() || dup || got_toks != toks || m2_edits != exp_m2 {
+        if other_files || bad_edit.is_some() || dup || got_toks != toks || lib_edits != exp_libs {
             let mut f = feat(if bad_edit.is_some() { "edit is not a whole identifier token spelled with the old name" } else if dup { "overlapping edits" } else { "edit set" });
             let mut mr: Vec<String> = toks.iter().filter(|t| !got_toks.contains(t)).map(role_of).collect();
             mr.sort();
             mr.dedup();
             f["missing_roles"] = json!(mr);
             f["extra_tokens"] = json!(got_toks.iter().filter(|t| !toks.contains(t)).count());
+            // library side: "ok" / "declaring module" (its declaration or uses differ) / "other module" (a module that does not
+            // declare the symbol was edited)
+            f["lib_edits"] = json!(if lib_edits == exp_libs { "ok" } else if (0..NLIB).any(|l| Some(l) != dlib && !lib_edits[l].is_empty()) { "other module" } else { "declaring module" });
             res.push(json!({"kind": "mismatch", "prop": "C07", "features": f,
-                "detail": detail(json!({"expected_tokens": toks, "got_tokens": got_toks, "m2_edits": m2_edits, "expected_m2": exp_m2, "bad_edit": bad_edit,
+                "detail": detail(json!({"expected_tokens": toks, "got_tokens": got_toks, "lib_edits": lib_edits, "expected_lib_edits": exp_libs, "bad_edit": bad_edit,
                                         "missing": toks.iter().filter(|t| !got_toks.contains(t)).collect::<Vec<_>>(), "extra": got_toks.iter().filter(|t| !toks.contains(t)).collect::<Vec<_>>()}))}));
             continue;
         }
         stats.2 += 1;
         // ---- apply, re-analyse
         let new_m1 = apply(&prog.text, &m1_edits);
-        let new_m2 = apply(LIB_TEXT, &m2_edits);
+        let new_libs: Vec<String> = (0..NLIB).map(|l| apply(LIBS[l].1, &lib_edits[l])).collect();
         // token table of the renamed program (same tokens, shifted offsets)
         let mut shift: isize = 0;
         let mut new_toks: Vec<(usize, usize, usize)> = vec![];
@@ -166,9 +193,9 @@ fn check_program(case: &Value, prog: &Program, rng: &mut Rng, res: &mut Vec<Valu
                 new_toks.push((t.idx, s, e2));
             }
         }
-        let ws2 = workspace::single_package(&[("m1", &new_m1), (LIB_NAME, &new_m2)]);
+        let ws2 = gen_ws(shape, &new_m1, &new_libs);
         let a2 = ws2.host.snapshot();
-        let after = binding_map(&a2, &new_toks, &new_m2, &decl_toks);
+        let after = binding_map(&a2, &new_toks, &new_libs, &decl_toks);
         if after != before {
             let diff: Vec<Value> = before.iter().zip(after.iter()).zip(id_toks.iter()).filter(|((b, a), _)| b != a).map(|((b, a), t)| json!({"token": t.0, "before": b, "after": a})).take(5).collect();
             res.push(json!({"kind": "mismatch", "prop": "C07", "features": feat("binding map changed"), "detail": detail(json!({"new_text": new_m1, "diff": diff}))}));
@@ -179,22 +206,31 @@ fn check_program(case: &Value, prog: &Program, rng: &mut Rng, res: &mut Vec<Valu
             res.push(json!({"kind": "mismatch", "prop": "C07", "features": feat("diagnostics changed"), "detail": detail(json!({"new_text": new_m1, "before": nerr_before, "after": nerr_after}))}));
             continue;
         }
+        // the library module whose text changed must still be free of errors (its own uses were renamed along)
+        if let Some(l) = dlib {
+            let n_lib = a2.diagnostics(lib_file(l)).unwrap().len();
+            let n_lib_before = a.diagnostics(lib_file(l)).unwrap().len();
+            if n_lib != n_lib_before {
+                res.push(json!({"kind": "mismatch", "prop": "C07", "features": feat("diagnostics of the library module changed"), "detail": detail(json!({"new_lib": new_libs[l], "before": n_lib_before, "after": n_lib}))}));
+                continue;
+            }
+        }
         // ---- rename back
         let q2off = if qfile == M1 { new_toks.iter().find(|(i, _, _)| *i == q_idx).unwrap().1 } else { qoff };
         match a2.rename(FilePos::new(qfile, (q2off as u32).into()), &old).unwrap() {
             Ok(back) => {
                 let mut e1 = vec![];
-                let mut e2 = vec![];
+                let mut e2: Vec<Vec<(usize, usize, String)>> = vec![vec![]; NLIB];
                 for (f, es) in back.content_edits.iter() {
                     for e in es {
                         let rec = (usize::from(e.delete.start()), usize::from(e.delete.end()), e.insert.to_string());
-                        if *f == M1 { e1.push(rec) } else { e2.push(rec) }
+                        if *f == M1 { e1.push(rec) } else if (f.0 as usize) <= NLIB { e2[f.0 as usize - 1].push(rec) }
                     }
                 }
                 let r1 = apply(&new_m1, &e1);
-                let r2 = apply(&new_m2, &e2);
-                if r1 != prog.text || r2 != LIB_TEXT {
-                    res.push(json!({"kind": "mismatch", "prop": "C07", "features": feat("rename back does not restore the text"), "detail": detail(json!({"new_text": new_m1, "restored": r1}))}));
+                let r2: Vec<String> = (0..NLIB).map(|l| apply(&new_libs[l], &e2[l])).collect();
+                if r1 != prog.text || (0..NLIB).any(|l| r2[l] != LIBS[l].1) {
+                    res.push(json!({"kind": "mismatch", "prop": "C07", "features": feat("rename back does not restore the text"), "detail": detail(json!({"new_text": new_m1, "restored": r1, "restored_libs": r2}))}));
                 }
             }
             Err(msg) => res.push(json!({"kind": "mismatch", "prop": "C07", "features": feat("rename back refused"), "detail": detail(json!({"new_text": new_m1, "error": msg}))})),
@@ -222,7 +258,11 @@ fn main() {
             let prog = programs::render(case, &mut rng, case["plain"].as_bool().unwrap_or(ci % 3 == 0));
             let mut local = vec![];
             let mut st = (0u64, 0u64, 0u64, Vec::<String>::new());
-            if let Err(p) = catch(|| check_program(case, &prog, &mut rng, &mut local, &mut st)) {
+            let shape = match case_v["shape"].as_str() { Some("one-package") => Shape::OnePackage, Some(_) => Shape::TwoPackages, None => Shape::seeded(seed, ci) };
+            let mut case_rec = case_v.clone();
+            case_rec["shape"] = json!(shape.name());
+            let case = &case_rec;
+            if let Err(p) = catch(|| check_program(case, &prog, shape, &mut rng, &mut local, &mut st)) {
                 local.push(json!({"kind": "mismatch", "prop": "C07", "features": {"what": "panic", "panic": p}, "detail": {"case": case, "text": prog.text}}));
             }
             let mut t = totals.lock().unwrap();
